@@ -262,8 +262,10 @@ fn gen_trace_knobs(rng: &mut Rng, k: &Knobs, extreme: bool, fault_free: bool) ->
         p_flicker: on(0.15),
         p_return: on(0.35),
         p_unanimated_bias: on(0.3),
-        p_suspend: if extreme { on(0.05) } else { 0.0 },
-        p_astro: if extreme { on(0.06) } else { 0.0 },
+        // clock jumps of hours..years and astronomical ones: frequent in the C20 domain, rare
+        // (and only off the exact grid) everywhere else
+        p_suspend: if extreme { on(0.05) } else if !k.grid { on(0.01) } else { 0.0 },
+        p_astro: if extreme { on(0.06) } else if !k.grid { on(0.01) } else { 0.0 },
         p_event: *rng.pick(&[0.1, 0.25, 0.5]),
         n_ops: rng.range(4, 48) as usize,
     }
@@ -384,11 +386,15 @@ pub fn generate(rng: &mut Rng, property: &str, deep: bool) -> Scn {
                         }
                     } else {
                         let base = d as f32;
-                        let v = match rng.below(4) {
+                        let v = match rng.below(7) {
                             0 => base,
                             1 => f32::from_bits(base.to_bits().saturating_sub(1)),
                             2 => f32::from_bits(base.to_bits() + 1),
-                            _ => (d + if rng.chance(0.5) { 1e-9 } else { -1e-9 }).max(0.0) as f32,
+                            3 => (d + if rng.chance(0.5) { 1e-9 } else { -1e-9 }).max(0.0) as f32,
+                            // a few ulps / a few hundred nanoseconds either side
+                            4 => f32::from_bits(base.to_bits().saturating_sub(rng.range(2, 16) as u32)),
+                            5 => f32::from_bits(base.to_bits() + rng.range(2, 16) as u32),
+                            _ => (d + (rng.range(-400, 400) as f64) * 1e-9).max(0.0) as f32,
                         };
                         let fault = if v == base {
                             Fault::LandOnBoundary
